@@ -5,6 +5,7 @@ import (
 	"go/constant"
 	"go/token"
 	"go/types"
+	"os"
 	"sort"
 	"strings"
 
@@ -15,8 +16,8 @@ func init() { register("C10", propC10) }
 
 func propC10() *Property {
 	return &Property{
-		ID:      "C10",
-		Decides: "the process has no recover(), so every panic is fatal; decided: R10.1a every error that can reach the stream event loop's error-type panics is a typed error (WrapErrorWithType with a known constant) or forwarded from a function for which that holds; R10.1b the dynamic type of a segment's metadata is a function of its protocol byte (two implementers, constant family-consistent protocol in every constructor, Unmarshal stores only a protocol of its own family, metadata never nil) and every unchecked type assertion on metadata is reachable only for protocols of the asserted family (constant propagation over the 16 protocol numbers, through callers); R10.1c only session/data segments are inserted into a segment tree; R10.1d a mismatch between the user of a session's cipher and the user of the cipher that decrypted a segment never leads to a panic; R10.1e inventory: every explicit panic in the network-facing packages is classified in a table confirmed by reading (constructor/configuration misuse with constant arguments verified by folding, internal invariants with the rule that maintains them) — an unclassified panic site fails the check; R10.4 no arithmetic is performed on a narrow unsigned value read from a packet before it is widened (wrap-around then slice).; R10.5 narrow-typed arithmetic on a parsed metadata length field is covered by an unconditional parse-time bound; R10.6 reader contract: every Read/ReadFrom implementation returns a count within len(p); R10.7 user names are filtered by byte length against MaxUserNameLen where the registry is built, the very measure under which the cipher's hint functions panic; R10.8 every sync/atomic.Value receives values whose statically determinable dynamic types agree",
+		ID:         "C10",
+		Decides:    "the process has no recover(), so every panic is fatal; decided: R10.1a every error that can reach the stream event loop's error-type panics is a typed error (WrapErrorWithType with a known constant) or forwarded from a function for which that holds; R10.1b the dynamic type of a segment's metadata is a function of its protocol byte (two implementers, constant family-consistent protocol in every constructor, Unmarshal stores only a protocol of its own family, metadata never nil) and every unchecked type assertion on metadata is reachable only for protocols of the asserted family (constant propagation over the 16 protocol numbers, through callers); R10.1c only session/data segments are inserted into a segment tree; R10.1d a mismatch between the user of a session's cipher and the user of the cipher that decrypted a segment never leads to a panic; R10.1e inventory: every explicit panic in the network-facing packages is classified in a table confirmed by reading (constructor/configuration misuse with constant arguments verified by folding, internal invariants with the rule that maintains them) — an unclassified panic site fails the check; R10.4 no arithmetic is performed on a narrow unsigned value read from a packet before it is widened (wrap-around then slice).; R10.5 narrow-typed arithmetic on a parsed metadata length field is covered by an unconditional parse-time bound; R10.6 reader contract: every Read/ReadFrom implementation returns a count within len(p); R10.7 user names are filtered by byte length against MaxUserNameLen where the registry is built, the very measure under which the cipher's hint functions panic; R10.8 every sync/atomic.Value receives values whose statically determinable dynamic types agree",
 		NotDecided: "run-time panics without an explicit panic statement other than the narrow-arithmetic pattern: nil dereferences, slice bounds in general, division by zero, atomic.Value type mismatches (F9: not demonstrable on production paths, not armed), resource exhaustion, panics inside the standard library and protobuf.",
 		Rules: []Rule{
 			{ID: "R10.1a", Floor: 15, Text: "StreamUnderlay.readOneSegment/readSessionSegment/readDataAckSegment return only nil, WrapErrorWithType(_, T) with T in {PROTOCOL,NETWORK,CRYPTO,REPLAY}, or an error forwarded from one of these functions", Run: r10_1a},
@@ -721,6 +722,19 @@ func r10_1e(c *RC) {
 					}
 				}
 			}
+			if cls == nil {
+				// the same assertion (same message, same package) moved or
+				// merged into another function keeps its classification
+				for i := range panicTable {
+					t := &panicTable[i]
+					if pkgPrefix(t.fn) != "" && strings.Contains(name, pkgPrefix(t.fn)) && msg != "" && hasStr(panicMsgs[t.fn], msg) {
+						name, cls = "…"+t.fn, t
+					}
+				}
+			}
+			if os.Getenv("MVERIF_DUMP_PANICS") != "" && cls != nil {
+				fmt.Fprintf(os.Stderr, "PANICMSG\t%s\t%q\n", cls.fn, msg)
+			}
 			key := "panic@" + name
 			perFn[name]++
 			if cls == nil {
@@ -1388,4 +1402,21 @@ func r10_8(c *RC) {
 			c.OK(key, sites[0].in.Pos(), "%d stores; determinable dynamic types %v agree (%d values not determinable statically)", len(sites), ts, unknown)
 		}
 	}
+}
+
+// pkgPrefix: "protocol." of "protocol.segmentTree).checkNil".
+func pkgPrefix(fnSuffix string) string {
+	if i := strings.Index(fnSuffix, "."); i > 0 {
+		return fnSuffix[:i+1]
+	}
+	return ""
+}
+
+func hasStr(ss []string, s string) bool {
+	for _, x := range ss {
+		if x == s {
+			return true
+		}
+	}
+	return false
 }
